@@ -9,6 +9,7 @@ callback log equal to the matching progress notifications delivered before compl
 """
 from __future__ import annotations
 
+import asyncio
 import copy
 import importlib
 import random
@@ -24,7 +25,7 @@ LEVEL = "exploration"
 RULE = ("scenario = one send_message call with optional cancellation token (fired at a generated instant, possibly before the call) "
         "and optional progress callback (may raise / await), + peer traffic incl. floods; non-trivial = the token fired while the request "
         "was pending, or a matching progress notification was delivered, or a flood ran during the request")
-PROBES = ["token_shared_by_second_request", "params_carried_a_stale_progress_token", "cancel_while_pending", "cancel_before_call", "response_wins_in_cancel_window", "deadline_in_cancel_window",
+PROBES = ["cancel_noticed_while_outgoing_stalled", "callback_raised_timeout_or_cancelled_type", "token_shared_by_second_request", "params_carried_a_stale_progress_token", "cancel_while_pending", "cancel_before_call", "response_wins_in_cancel_window", "deadline_in_cancel_window",
           "cancel_exactly_on_poll_edge", "flood_during_request", "callback_raised", "callback_slept", "progress_matching_delivered",
           "progress_foreign_delivered", "cancel_after_completion"]
 TIERS = {"quick": {"runs": 25000, "wall": 45.0}, "thorough": {"runs": 1200000, "wall": 560.0}}
@@ -87,18 +88,30 @@ def generate(rng: random.Random, tier: str) -> dict:
     if rng.random() < 0.2:
         flood = {"every": rng.choice([10, 10, 5, 50]), "start": rng.choice([0, t0, t0 + 100]), "end": dl + 50,
                  "kind": rng.choice(["notification", "other_response", "progress_foreign"])}
-    cb = {"raise_at": sorted(rng.sample(range(0, 6), rng.choice([0, 0, 1, 2]))), "sleep": rng.choice([0, 0, 0, 0, 5, 300])} if use_progress else None
+    cb = {"raise_at": sorted(rng.sample(range(0, 6), rng.choice([0, 0, 1, 2]))), "sleep": rng.choice([0, 0, 0, 0, 5, 300]),
+          "raise_kind": rng.choice(["RuntimeError", "RuntimeError", "TimeoutError", "LibCancelledError", "KeyError", "asyncio.TimeoutError", "OSError"])} if use_progress else None
+    wblock = None
+    if cancel is not None and cancel["t"] > t0 + 1 and rng.random() < 0.15:
+        # the outgoing side stops taking messages for a while around the moment the cancellation is noticed
+        bs = max(t0 + 2, cancel["t"] + rng.choice([-300, -5, -1, 0, 1, 100, 400]))
+        wblock = {"at": bs, "dur": rng.choice([100, 511, 513, 700, 1100, 1600])}
+        if cb:
+            cb["sleep"] = 0
     follow_up = None
-    if use_token and cancel is not None and rng.random() < 0.3:
+    if wblock is None and use_token and cancel is not None and rng.random() < 0.3:
         # a second request started later with the SAME token (e.g. one token per user action covering several calls)
         follow_up = {"dt": rng.choice([0, 1, 600, 1200]), "timeout": rng.choice([0.5, 1.0])}
-    return {"v": 1, "follow_up": follow_up, "timeout": timeout, "t0": t0, "uuid_seed": rng.getrandbits(40),
+    return {"v": 1, "wblock": wblock, "follow_up": follow_up, "timeout": timeout, "t0": t0, "uuid_seed": rng.getrandbits(40),
             "mid": rng.choice([None, None, "req-1", "77"]), "mode": rng.choice(["parse_message", "model_validate"]),
             "params": rng.choice([None, {}, {"a": 1}, {"_meta": {"keep": 1}, "b": 2}, {"_meta": {"progressToken": "stale-token-from-earlier-attempt"}, "c": 3}]),
             "use_token": use_token, "cancel": cancel, "use_progress": use_progress, "cb": cb, "flood": flood, "events": events}
 
 
 def simplify(scn):
+    if scn.get("wblock"):
+        c = copy.deepcopy(scn); c["wblock"] = None; yield c
+    if scn.get("cb") and scn["cb"].get("raise_kind", "RuntimeError") != "RuntimeError":
+        c = copy.deepcopy(scn); c["cb"]["raise_kind"] = "RuntimeError"; yield c
     if scn.get("follow_up"):
         c = copy.deepcopy(scn); c["follow_up"] = None; yield c
     c = copy.deepcopy(scn)
@@ -152,9 +165,38 @@ def execute(scn: dict) -> dict:
         if scn["flood"]:
             nflood = (scn["flood"]["end"] - scn["flood"]["start"]) // scn["flood"]["every"] + 2
         to_client_send, to_client_recv = anyio.create_memory_object_stream(max(100, len(scn["events"]) + nflood + 10))
-        from_client_send, _keep = anyio.create_memory_object_stream(100)
+        wb = scn.get("wblock")
+        from_client_send, _keep = anyio.create_memory_object_stream(0 if wb else 100)
         rr = RecRecv(sim, to_client_recv)
         ws = RecSend(sim, from_client_send)
+        if wb:
+            # a consumer (the transport's writer) that takes every message at once, except during [at, at+dur)
+            taken = []
+            st["taken"] = taken
+            gate = {"on": False, "ev": None, "scope": None}
+
+            async def consumer():
+                while True:
+                    if gate["on"]:
+                        await gate["ev"].wait()
+                    with anyio.CancelScope() as sc:
+                        gate["scope"] = sc
+                        item = await _keep.receive()
+                        taken.append((sim.rec("peer", "writer-took", None), sim.now(), "writer", item))
+
+            def block_on():
+                gate["on"], gate["ev"] = True, anyio.Event()
+                sim.fault("outgoing_side_stalled")
+                if gate["scope"] is not None:
+                    gate["scope"].cancel()
+
+            def block_off():
+                gate["on"] = False
+                gate["ev"].set()
+
+            consumer_task = asyncio.get_running_loop().create_task(consumer(), name="writer-consumer")
+            sim.at(ticks(wb["at"]), block_on, tie=0)
+            sim.at(ticks(wb["at"] + wb["dur"]), block_off, tie=0)
         st["rr"], st["ws"] = rr, ws
         delivered = []
         st["delivered"] = delivered
@@ -234,7 +276,12 @@ def execute(scn: dict) -> dict:
                 if scn["cb"]["sleep"]:
                     await anyio.sleep(ticks(scn["cb"]["sleep"]))
                 if idx in scn["cb"]["raise_at"]:
-                    raise RuntimeError("callback failure injected")
+                    rk = scn["cb"].get("raise_kind", "RuntimeError")
+                    exc_t = {"RuntimeError": RuntimeError, "TimeoutError": TimeoutError, "LibCancelledError": sm.CancelledError, "KeyError": KeyError,
+                             "asyncio.TimeoutError": asyncio.TimeoutError, "OSError": ConnectionResetError}[rk]
+                    if rk != "RuntimeError":
+                        sim.probe("callback_raised_timeout_or_cancelled_type")
+                    raise exc_t("callback failure injected")
             finally:
                 st["cb_active"] -= 1
 
@@ -270,6 +317,13 @@ def execute(scn: dict) -> dict:
             st["fu_t1"] = sim.now()
             st["fu_writes"] = [dump(it) for (_e, _t, _tn, it) in ws.items[n_before:]]
         await anyio.sleep(1.0)
+        if wb:
+            await anyio.sleep(ticks(wb["dur"]))
+            consumer_task.cancel()
+            try:
+                await consumer_task
+            except BaseException:  # noqa
+                pass
 
     with patched((_uuid, "uuid4", fu)):
         info = run_sim(main, max_steps=200_000, max_vtime=200.0)
@@ -303,7 +357,7 @@ def execute(scn: dict) -> dict:
     else:
         actual = ("exception", type(val).__name__, str(val)[:100])
     t_call, t_done = st["t_call"], st["t_done"]
-    writes = [(e, t, dump(item)) for (e, t, _tn, item) in ws.items]
+    writes = [(e, t, dump(item)) for (e, t, _tn, item) in (st["taken"] if scn.get("wblock") else ws.items)]
     if "fu_outcome" in st:
         # the follow-up request with the same token is judged on its own and taken out of the first request's write history
         fw = st["fu_writes"]
@@ -332,6 +386,15 @@ def execute(scn: dict) -> dict:
     deadline = t_w + timeout
     tc = st.get("tc")
     pre_cancel = tc is not None and st["tc_eseq"] < st["call_eseq"]
+    # outgoing side stalled while the cancellation is being noticed: the cancelled notification (and with it the CancelledError) waits for it
+    notice_by = (tc + POLL) if tc is not None else None
+    wb_edge = False
+    if scn.get("wblock") and tc is not None:
+        bs, be = ticks(scn["wblock"]["at"]), ticks(scn["wblock"]["at"] + scn["wblock"]["dur"])
+        if bs <= tc + POLL and be > tc:
+            notice_by = max(notice_by, be)
+            probe("cancel_noticed_while_outgoing_stalled")
+            wb_edge = (be == deadline)
 
     # matching response model
     mstar, edge = None, None
@@ -368,7 +431,7 @@ def execute(scn: dict) -> dict:
             if mstar is not None and mstar["t"] <= tc + POLL:
                 acceptable.append(exp_of(mstar))
                 probe("response_wins_in_cancel_window")
-            if deadline <= tc + POLL:
+            if deadline <= notice_by:
                 acceptable.append(("timeout",))
                 probe("deadline_in_cancel_window")
                 if edge is not None:
@@ -414,14 +477,14 @@ def execute(scn: dict) -> dict:
         V("deadline-overrun", actual[0], f"call ended at {t_done} > deadline {deadline}")
     # 2. cancellation within one polling interval
     slack = max([end - s_ for (s_, end) in slow_ends if end >= tc and s_ <= tc + POLL], default=0.0) if tc is not None else 0.0
-    if actual[0] == "cancelled" and tc is not None and not pre_cancel and t_done > tc + POLL + slack:
+    if actual[0] == "cancelled" and tc is not None and not pre_cancel and t_done > notice_by + slack:
         V("cancel-latency", "over-one-poll", f"token fired at {tc}, CancelledError only at {t_done}")
     if actual[0] == "cancelled" and tc is None:
         V("outcome", "cancelled-without-token-fired", "CancelledError raised although the token never fired")
     # exactly one cancelled notification iff the call ended cancelled
     if not pre_cancel:
         want = 1 if actual[0] == "cancelled" else 0
-        if len(cancels) != want:
+        if len(cancels) != want and not (wb_edge and len(cancels) <= 1):
             V("cancel-notification", f"count={len(cancels)}:outcome={actual[0]}", f"{len(cancels)} cancelled notifications written, expected {want}")
     for c in cancels:
         p = c[2].get("params") or {}
@@ -451,6 +514,9 @@ def execute(scn: dict) -> dict:
         # a notification carrying the token *before the request announcing that token was written* cannot come from a real
         # server: it may or may not be seen (e.g. the token fires before the first receive) - only "may"
         must = [d for d in matching if d["eseq"] < cutoff_eseq and d["t"] < t_done and not pre_cancel and d["eseq"] > w_eseq]
+        if scn.get("wblock") and tc is not None and actual[0] in ("cancelled", "timeout"):
+            # notifications arriving while the library is stuck handing over the cancelled notification are in flight, not "before completion"
+            must = [d for d in must if d["t"] < max(tc, 0) or d["t"] < ticks(scn["wblock"]["at"])]
         may = [d for d in matching if d not in must and d["eseq"] < st["done_eseq"] and d["t"] <= t_done]
         calls = st["cb_calls"]
 
